@@ -185,7 +185,8 @@ def run(ck):
                  ("G-REFUSE", "short buffers refused before the CRC is evaluated"), ("X-BUF", "reads of the checksum routine (also while building its error) in bounds"),
                  ("E-ESC", "the checksum routine raises documented classes only")):
         ck.rule(r, t)
-    ck.trusted += ["CRC-16/CCITT-FALSE detects every burst of up to 16 bits (polynomial property)", "crcmod implements the named algorithm"]
+    ck.trusted += ["CRC-16/CCITT-FALSE detects every burst of up to 16 bits (polynomial property)", "crcmod implements the named algorithm",
+                   "for this CRC (no final XOR) crc16(m + t) == 0 exactly when t is the big-endian crc16(m): a comparison of the computed CRC with the trailer word counts as the verification"]
     ck.assumptions += ["corruption outside the length-determining octets (as the property states)"]
 
     # ---------------------------------------------------------------- K-CONST
@@ -203,7 +204,7 @@ def run(ck):
                         ck.refuted("K-CONST", where, "CRC objects are created from the predefined CCITT-FALSE definition", f"custom polynomial call `{ast.unparse(node)[:80]}`")
                     else:
                         ck.verdict("K-CONST", where, f"`{ast.unparse(node)[:60]}` names crc-ccitt-false", [] if val == CRC_NAME else [f"names {val!r}"], "literal")
-    ck.floor("CRC object creations", n, 4)
+    ck.floor("CRC object creations", n, 1)
     # every name bound to a CRC function is one of those; decoders/encoders call only these (interpreter maps them to crc16)
     it = new_interp(P); env = Env()
     pk = sym("tc_packet", ty="bytes")
